@@ -7,6 +7,9 @@
                         | x odd message ids only | l warning and above (LevelFilter) | y debug only
                         (CategoryFilter)
             o any other handler (also S) | N a null handler entry (TNull) | ( ... ) nested pipeline
+            q Q RotatingFileSink with a 1000-byte limit (Q: its first rename is blocked) — like R for the model
+     msgs : items starting with f are explicit flush() calls between messages: ignored here (a flush changes no
+            content: C11_explicit_flush_changes_no_content), they take no id
      end  : fatal (qFatal after the messages, then abort) | kill (SIGKILL after the messages)
      msgs : - or comma separated <t><size>[*<count>], t in d w c i (qDebug qWarning qCritical qInfo)
             or m (the type of message number i is "diwc"[i mod 4]) or z (an info message logged while the device
@@ -42,7 +45,7 @@ let parse_tree (s : string) : tree =
     | c -> incr pos;
       let it = (match c with
         | 'F' | 'D' -> let i = !next in incr next; TSink (fresh (n_of_int i) false false)
-        | 'R' | 'r' -> let i = !next in incr next; TSink (fresh (n_of_int i) true false)
+        | 'R' | 'r' | 'q' | 'Q' -> let i = !next in incr next; TSink (fresh (n_of_int i) true false)
         | 'B' -> let i = !next in incr next; TSink (fresh (n_of_int i) false true)
         | '(' -> let l = items () in (if !pos < String.length s && s.[!pos] = ')' then incr pos); TPipe l
         | 'g' | 'n' | 'e' | 'x' | 'l' | 'y' -> TFilter (flt_of c)
@@ -60,7 +63,7 @@ let fault_ids (s : string) : int list =
     let body = String.sub it 1 (String.length it - 1) in
     match String.split_on_char '*' body with
     | [_; cnt] -> List.init (int_of_string cnt) (fun _ -> t)
-    | _ -> [t]) (String.split_on_char ',' s) in
+    | _ -> [t]) (List.filter (fun it -> it <> "" && it.[0] <> 'f') (String.split_on_char ',' s)) in
   List.concat (List.mapi (fun i t -> if t = 'z' then [i] else []) raw)
 let parse_msgs (s : string) : (mtype * int) list =
   if s = "-" || s = "" then [] else
@@ -69,7 +72,7 @@ let parse_msgs (s : string) : (mtype * int) list =
     let body = String.sub it 1 (String.length it - 1) in
     match String.split_on_char '*' body with
     | [sz; cnt] -> List.init (int_of_string cnt) (fun _ -> (t, int_of_string sz))
-    | _ -> [(t, int_of_string body)]) (String.split_on_char ',' s) in
+    | _ -> [(t, int_of_string body)]) (List.filter (fun it -> it <> "" && it.[0] <> 'f') (String.split_on_char ',' s)) in
   List.mapi (fun i (t, sz) -> (ty_of i t, sz)) raw
 let ranges (l : int list) : string =
   let b = Buffer.create 64 in
